@@ -81,7 +81,8 @@ static void compare(const Table& t, const Model& m, const std::string& where) {
 
 static void explore(bool populated, bool full) {
   std::string ck = populated ? "populated-table" : "empty-table"; H->hint(ck);
-  std::vector<std::string> good = full ? std::vector<std::string>{"A", "ABCDEFG1", "LONGKEYNAME1"} : std::vector<std::string>{"A", "LONGKEYNAME1"};
+  // one key is a strict prefix of another (short: A / AB; thorough also long: LONGKEYNAME / LONGKEYNAME1): a lookup that matches prefixes confuses them, in one order of insertion only
+  std::vector<std::string> good = full ? std::vector<std::string>{"A", "AB", "LONGKEYNAME", "LONGKEYNAME1"} : std::vector<std::string>{"A", "AB", "LONGKEYNAME1"};
   std::vector<std::string> bad = {"ORDER7", "NAXIS", "TYPEX", "PERIOD0", "abc", "A_B", "A=LONGKEYNAM", "lowerlongkeyname", "", " LEADINGBLANK", "TRAILINGBLANK ", std::string(67, 'K')};
   g_keys_all = good; g_keys_all.insert(g_keys_all.end(), bad.begin(), bad.end()); g_keys_all.push_back("ABSENT");
   std::vector<Val> vals = {{0, 42, 0, ""}, {1, 0, 0.5, ""}, {2, 0, 0, ""}, {2, 0, 0, "x"}, {2, 0, 0, "it's"}};
@@ -237,8 +238,8 @@ int main(int argc, char** argv) {
   vf::Harness h("C16", argc, argv);
   H = &h;
   h.meta("level", "model_checking");
-  h.meta("rule", "breadth-first search to a FIXPOINT over the auxiliary-key store of a real table (populated 1-d table, and an empty one): state = ordered list of (key, value without trailing blanks); operations: write_key of every (key, value) of the alphabet (accepted keys: short, 8-character, long/HIERARCH; values: int, double, empty string, short string, string with a quote, [thorough: negative int, 40 quotes, embedded blanks], the maximal length for the key and one more), write_key with 12 keys that must be rejected (reserved prefixes, lower case, punctuation, '=', empty, leading / trailing blank, 67 characters), remove_key of present and absent keys, and a FITS round trip (write_fits_mem + read_fits_mem into a fresh table, continuing on it); because the value set is finite the search covers histories of every length; each transition replays the shortest history on a fresh object; oracle = insertion-ordered reference map stepped in lock-step: exceptions, return values, store size, key order, get_aux_value, string / int / double typed reads, C get_key / read_key, for every key of the alphabet after every transition; space 'cards' (one step on a fresh populated table, then a round trip): key length in {1,2,7,8,9,10,11,20,40,65,66,67,68,80,200} x {clean, one character replaced at the first / middle / last position by blank . - _ a = ' / TAB 0x01 0x7f 0xe9} x value of encoded length {0, 1, capacity-1, capacity, capacity+1} x {plain, leading quote, all quotes, leading blank, embedded TAB, embedded 0xe9}: accepted exactly when the model accepts, store unchanged on rejection, every accepted entry found under its key with its value after write_fits_mem + read_fits_mem; space 'reserved': the eight reserved prefixes x ten continuations (none, digits, letters, long HIERARCH-length tails, with blank / underscore) through the string, int and double writers and the C writer: refused, store unchanged; space 'cwrite': eleven integers (up to INT_MAX / INT_MIN) and eight doubles through the C wrapper's typed writer: same stored string as the C++ writer, integers recovered exactly by read_key<int> and the C reader before and after a round trip");
-  h.meta("assumption", "key alphabet of 2 (quick) / 3 (thorough) accepted keys; value trailing blanks are not part of the state (the property allows a round trip to add them)");
+  h.meta("rule", "breadth-first search to a FIXPOINT over the auxiliary-key store of a real table (populated 1-d table, and an empty one): state = ordered list of (key, value without trailing blanks); operations: write_key of every (key, value) of the alphabet (accepted keys: a short key, a second short key of which the first is a strict prefix, long/HIERARCH [thorough: two long keys, one a prefix of the other]; values: int, double, empty string, short string, string with a quote, [thorough: negative int, 40 quotes, embedded blanks], the maximal length for the key and one more), write_key with 12 keys that must be rejected (reserved prefixes, lower case, punctuation, '=', empty, leading / trailing blank, 67 characters), remove_key of present and absent keys, and a FITS round trip (write_fits_mem + read_fits_mem into a fresh table, continuing on it); because the value set is finite the search covers histories of every length; each transition replays the shortest history on a fresh object; oracle = insertion-ordered reference map stepped in lock-step: exceptions, return values, store size, key order, get_aux_value, string / int / double typed reads, C get_key / read_key, for every key of the alphabet after every transition; space 'cards' (one step on a fresh populated table, then a round trip): key length in {1,2,7,8,9,10,11,20,40,65,66,67,68,80,200} x {clean, one character replaced at the first / middle / last position by blank . - _ a = ' / TAB 0x01 0x7f 0xe9} x value of encoded length {0, 1, capacity-1, capacity, capacity+1} x {plain, leading quote, all quotes, leading blank, embedded TAB, embedded 0xe9}: accepted exactly when the model accepts, store unchanged on rejection, every accepted entry found under its key with its value after write_fits_mem + read_fits_mem; space 'reserved': the eight reserved prefixes x ten continuations (none, digits, letters, long HIERARCH-length tails, with blank / underscore) through the string, int and double writers and the C writer: refused, store unchanged; space 'cwrite': eleven integers (up to INT_MAX / INT_MIN) and eight doubles through the C wrapper's typed writer: same stored string as the C++ writer, integers recovered exactly by read_key<int> and the C reader before and after a round trip");
+  h.meta("assumption", "key alphabet of 3 (quick) / 4 (thorough) accepted keys; value trailing blanks are not part of the state (the property allows a round trip to add them)");
   h.meta("require_states", "50");
   h.meta("deadline_quick", "900"); h.meta("deadline_thorough", "3000");
   h.timeout_s = 2400;
